@@ -32,4 +32,36 @@ PROPS = {
         "require": {"any": ["enumerations_completed", "steps_with_parallel_ge3", "selfloop_removed_by_disconnect", "selfloop_removed_by_isolate", "failing_calls", "prov.2", "prov.3", "prov.4", "prov.5", "prov.6", "random_histories"]},
         "assumptions": SEQ_ASSUME,
     },
+
 }
+
+SEARCH_ASSUME = [
+    "expectations are computed by the reference model (harness/gv/src/model.rs) on the implementation's own observation of the graph; C01-C03 decide whether that observation is coherent",
+    "filters used by the workloads are pure (membership in a fixed reject set over (source, target, edge id))",
+    "node values do not change during a search",
+]
+
+def _search(pid, rule, quick_bounds, thorough_bounds, quick_random, thorough_random, require):
+    return {
+        "id": pid, "cmd": "search", "level": "exploration",
+        "rule": rule,
+        "shards": {"quick": 16, "thorough": 16},
+        "args": {"quick": ["--bounds", quick_bounds, "--random", str(quick_random)],
+                 "thorough": ["--bounds", thorough_bounds, "--random", str(thorough_random)]},
+        "exhaustive": {"quick": True, "thorough": True},
+        "require": {"any": ["enumerations_completed", "graphs_with_selfloop", "graphs_with_parallel_edges", "random_graphs"] + require},
+        "assumptions": SEARCH_ASSUME,
+        "timeout": {"quick": 400, "thorough": 3000},
+    }
+
+ENUM = "graphs are enumerated as insertion sequences (every multigraph with self-loops and parallel edges, every insertion order) within the node/edge bounds given in counters, x every root (x every target != root) x every subset of rejected edge ids plus sampled direction-dependent predicates; seeded random graphs of 3..40 nodes from six families (sparse, dense, dag, cycle-with-chords, disconnected, star-with-parallel) with sampled roots/targets/filters. distinct = distinct (flavour, graph, priorities, root/target/filter configuration) with at least one edge."
+
+PROPS.update({
+    "C04": _search("C04", "bfs().target(t).search_path()/search() against model BFS distances on the accepted sub-graph: presence iff reachable, path starts at root, ends at target, chained existing accepted edges, length = model distance, search() agrees, Path accessors agree with each other. " + ENUM, "3:4", "3:5,4:4", 400, 6000, ["unreachable_targets", "filter_disconnects_target", "paths_len_ge2"]),
+    "C05": _search("C05", "dfs().target(t).search_path()/search(): presence iff reachable in the accepted sub-graph, valid chained path of existing accepted edges, no node twice, search() agrees. " + ENUM, "3:4", "3:5,4:4", 400, 6000, ["unreachable_targets", "filter_disconnects_target", "paths_len_ge2"]),
+    "C06": _search("C06", "pfs min/max: (i) expansion order read off the for_each/filter call log (blocks of equal source; at the start of a block no discovered, unexpanded node with edges has a strictly better value), with and without target; (ii) target search validity as C04 minus minimality; (iii) comparison operators of nodes over a 3x3 (key,value) grid. Node values from {0,1,2}^n, all assignments for n<=3. " + ENUM, "3:3", "3:4,4:3", 200, 3000, ["unreachable_targets", "pfs_traversals_with_ge3_expansions", "comparison_pairs"]),
+    "C07": _search("C07", "for_each without target on bfs/dfs/pfs-min/pfs-max/preorder/postorder: multiset of closure calls == multiset of edges leaving reachable nodes (undirected: once per endpoint, self-loop twice), true endpoints and value; with filters: no rejected edge in any path/ordering/cycle/edge list, results only for what is reachable through accepted edges, closure only ever sees true edges. " + ENUM, "3:3", "3:4,4:3", 200, 3000, ["foreach_logs_ge3_calls", "filtered_searches"]),
+    "C08": _search("C08", "differential on two live instances: every search configuration {bfs,dfs,pfs-min,pfs-max,pre,post} x {search,search_path,search_cycle,search_nodes,search_edges} x root x target x filter with transpose() on G must equal, result and closure-call sequence, the plain configuration on the list-wise reversed instance G^R; transposed reports must be stored edges u->v shown as (v,u,e); non-transposed traversals only report stored out-edges. Directed flavours. " + ENUM, "3:3", "3:4,4:3", 200, 3000, ["differential_pairs_with_result"]),
+    "C09": _search("C09", "search_cycle for bfs/dfs/pfs: presence iff the root reaches itself through >=1 accepted edges (undirected: accepted half-edges), result starts/ends at root, chained existing accepted edges; directed: no edge / intermediate node twice, root not inside, bfs result of minimum length. " + ENUM, "3:4", "3:5,4:4", 400, 6000, ["acyclic_roots", "selfloop_cycles", "cycles_len_ge3"]),
+    "C10": _search("C10", "preorder()/postorder() (directed) and order().pre()/.post() (undirected): search_nodes is a permutation of the model's reachable set with the root first/last and is producible by some DFS (preorder: exact stack simulation; postorder: exact back-tracking decision with a step budget, necessary conditions only beyond, counted separately); search_edges = one existing accepted edge per non-root node in the same order. " + ENUM, "3:4", "3:5,4:4", 400, 6000, ["orders_ge3_nodes", "postorder_exact_decisions"]),
+})
